@@ -594,15 +594,24 @@ def gen(r):
                      for cl in calls]
         return {'kind': 'recv', 'stream': stream, 'script': script, 'timeout': timeout,
                 'recvsize': r.choice([1, 2, 3, 4, 8, 64, 4096]), 'calls': calls, 'full_socket': r.random() < 0.3}
-    if 0.865 < x < 0.87:
-        # 1.5-5 MB handed to one send/sendall/buffer+flush, accepted in pieces of 50-400 KB, with a fault late in it
-        n = r.choice([1500000, 3 * 2 ** 20, 2 ** 20 + 1, 5000000])
+    if 0.862 < x < 0.87:
+        # 64 KB - 5 MB handed to one send/sendall/buffer+flush, accepted in pieces of 50-400 KB, with a fault late in it
+        n = r.choice([1500000, 3 * 2 ** 20, 2 ** 20 + 1, 5000000, 65535, 65536, 65537, 70000, 131072, 300000])
         ss = []
+        small = n <= 300000
         for _ in range(r.randint(3, 14)):
-            ss.append(r.choice([65536, 200000, 409600, 2 ** 20]))
-        ss.insert(r.randint(3, len(ss)), r.choice(['timeout', 'error', ['slow', 100000, 6.0]]))
-        big = [[r.choice(['send', 'sendall']), n]] if r.random() < 0.6 else [['buffer', n // 2], ['buffer', n - n // 2], ['flush']]
-        return {'kind': 'send', 'big': big + [['flush']], 'calls': [], 'send_script': ss + [2 ** 20] * 3, 'timeout': 5.0}
+            ss.append(r.choice([4096, 10000, 30000, 65536] if small else [65536, 200000, 409600, 2 ** 20]))
+        ss.insert(r.randint(1 if small else 3, len(ss)), r.choice(['timeout', 'error', ['slow', 1000 if small else 100000, 6.0]]))
+        y = r.random()
+        if y < 0.4:
+            big = [[r.choice(['send', 'sendall']), n]]
+        elif y < 0.7:
+            # a short header is buffered first, then the big payload is sent on top of it
+            big = [['buffer', r.choice([1, 4, 17, 40])], [r.choice(['send', 'sendall']), n]]
+        else:
+            big = [['buffer', n // 2], ['buffer', n - n // 2], ['flush']]
+        return {'kind': 'send', 'big': big + [['flush']], 'calls': [], 'send_script': ss + [2 ** 20] * 3, 'timeout': 5.0,
+                'full': r.random() < 0.4}
     if x < 0.87:
         calls = []
         for _ in range(r.randint(1, 8)):
